@@ -258,3 +258,44 @@ def span_program(referrer, direction, between, gapn, tail_item=None, pre=()):
     if direction == 'fwd':
         return list(pre) + [referrer('A')] + list(between) + g + [L.align(2), L.label('A'), tail_item]
     return list(pre) + [L.label('A'), tail_item] + g + list(between) + [L.align(2), referrer('A')]
+
+
+# ------------------------------------------------------------------------------------------
+# operand-edge instruction space (C04 C12 C20): the 18 base mnemonics that have an RVC counterpart, registers on
+# both sides of every register-class boundary, literal immediates on both sides of every RVC operand-set edge
+# ------------------------------------------------------------------------------------------
+
+REG9 = [0, 1, 2, 7, 8, 9, 15, 16, 31]
+
+
+def edge_instructions(tier='quick'):
+    regs = REG9 if tier == 'quick' else [0, 1, 2, 3, 7, 8, 9, 12, 15, 16, 31]
+    out = []
+    addi_imms = sorted(set(range(-40, 41)) | set(range(-544, 545, 16)) | set(range(-8, 1040, 4)) | {-2048, 2047, 1023, 1021, 511, -513, 497, 495, -511})
+    for rd in regs:
+        for rs1 in regs:
+            for imm in addi_imms:
+                out.append(I('addi', rd=rd, rs1=rs1, imm=imm))
+            for imm in sorted(set(range(-8, 270)) | {-2048, 2047}):
+                out.append(I('lw', rd=rd, rs1=rs1, imm=imm))
+                out.append(I('sw', rs1=rd, rs2=rs1, imm=imm))
+            for imm in list(range(-40, 41)) + [-2048, 2047]:
+                out.append(I('andi', rd=rd, rs1=rs1, imm=imm))
+            for sh in range(32):
+                for mn in ('slli', 'srli', 'srai'):
+                    out.append(I(mn, rd=rd, rs1=rs1, shamt=sh))
+            for imm in (-4, -2, 0, 2, 4, 2046, -2048):
+                out.append(I('jalr', rd=rd, rs1=rs1, imm=imm))
+            for imm in sorted(set(range(-262, 262, 2)) | {-4096, 4094}):
+                out.append(I('beq', rs1=rd, rs2=rs1, imm=imm))
+                out.append(I('bne', rs1=rd, rs2=rs1, imm=imm))
+            for rs2 in regs:
+                for mn in ('add', 'sub', 'xor', 'or', 'and'):
+                    out.append(I(mn, rd=rd, rs1=rs1, rs2=rs2))
+        for imm in sorted(set(range(-40, 41)) | set(range(0xfffd8, 0x100000)) | {0x7ffff, -0x80000, 0x80000, 32, 0x1f, 0x20}):
+            out.append(I('lui', rd=rd, imm=imm if imm < 0x80000 else imm, text='lui x%d, %d' % (rd, imm)))
+        for imm in sorted(set(range(-2060, 2060, 2)) | {-(1 << 20), (1 << 20) - 2}):
+            out.append(I('jal', rd=rd, imm=imm))
+    out.append(I('ebreak'))
+    out.append(I('ecall'))
+    return out
